@@ -61,8 +61,8 @@ def model_term(c):
         rs = []
         for i in range(0, len(L), 5):
             kind, known, nacks, ndata, dkind = L[i:i + 5]
-            rs.append("{| p_kind := %s; p_known := %s; p_nacks := %d; p_data := [%s] |}" % (
-                KIND[kind], b(known), nacks, ";".join([DK[dkind]] * ndata)))
+            rs.append("{| p_kind := %s; p_known := %s; p_nacks := %d; p_retry := %s; p_data := [%s] |}" % (
+                KIND[kind], b(known), nacks % 10, b(nacks >= 10), ";".join([DK[dkind]] * ndata)))
         return "pub (impl_publish_loop 0 [%s])" % ";".join(rs)
     if op == "transfer":
         t = {0: "TOk", 1: "TFailed", 3: "TFailed", 4: "TUnsupported"}[p["tkind"]]
@@ -143,9 +143,15 @@ def run(ctx):
     usable = [o for o in obs if observed(o) is not None]
     odd = [o for o in obs if observed(o) is None]
     if ok and (r is None or r["ok"]):
-        lines = ["((%d,%d,%d), %s)" % (observed(o) + (model_term(o["case"]),)) for o in usable]
-        okc, idx, clog = ctx.eval_cases(IMPORTS, "(nat*nat*nat) * (nat*nat*nat)", lines,
-                                        "  let '((a,b,c),(x,y,z)) := c in (a =? x) && (b =? y) && (c =? z)")
+        # a publish answer with a Bad ServiceResult is reported to the subscription by a goroutine AND stops the client
+        # (auto-reconnect is off in the harness): that goroutine may find its context cancelled, so the last error
+        # notification of such a script may or may not arrive
+        def strict(o):
+            c = o["case"]
+            return not (c["op"] == "publish" and c["l"][-5] == 2)
+        lines = ["((%d,%d,%d,%s), %s)" % (observed(o) + (b(strict(o)), model_term(o["case"]))) for o in usable]
+        okc, idx, clog = ctx.eval_cases(IMPORTS, "(nat*nat*nat*bool) * (nat*nat*nat)", lines,
+                                        "  let '((a,b,c,strict),(x,y,z)) := c in (a =? x) && (b =? y) && ((c =? z) || (negb strict && (S c =? z)))")
         if not okc:
             corr_ok = False
             detail["cases"] = clog
